@@ -25,6 +25,8 @@ def is_transparent(name):
     if name in TRANSPARENT:
         return True
     tail = name.rsplit("::", 1)[-1]
+    if name.endswith("<impl [T]>::iter") or name.endswith("<impl [T]>::iter_mut"):
+        return True
     if name.startswith("<") and tail in ("clone", "deref", "deref_mut", "as_ref", "borrow", "to_owned",
                                            "into_iter", "into_future"):
         return True
@@ -936,3 +938,66 @@ def value_holders(fn, res, is_value, ty_substr):
 
 def drops_of(fn, l):
     return [b for b in fn.live_blocks() if fn.term(b)["k"] == "drop" and fn.term(b)["place"] == {"l": l}]
+
+
+def _uses_move(op, l):
+    return isinstance(op, dict) and op.get("move") == {"l": l}
+
+
+def _stmt_consumes(st, l):
+    if st["k"] != "assign":
+        return False
+    rv = st["rv"]
+    if rv["k"] == "use":
+        return _uses_move(rv["op"], l)
+    if rv["k"] in ("agg",):
+        return any(_uses_move(o, l) for o in rv["ops"])
+    if rv["k"] in ("cast", "repeat"):
+        return _uses_move(rv["op"], l)
+    return False
+
+
+def unconsumed_drops(fn, l):
+    """`drop(l)` terminators reachable from the (single) definition of l along a path on which l is
+    never moved out: the value is destroyed there (moved-before-dropped typestate).  [(block)]"""
+    sd = fn.single_def(l)
+    if sd is None:
+        return None
+    b0, i0, kind = sd
+    out = []
+    seen = set()
+    # (block, start index)
+    work = [(b0, (i0 + 1) if kind == "assign" else None)]
+    while work:
+        b, start = work.pop()
+        if (b, start is None) in seen and start != (i0 + 1 if kind == "assign" else None):
+            continue
+        seen.add((b, start is None))
+        consumed = False
+        if start is not None or b != b0 or kind != "assign":
+            pass
+        stmts = fn.stmts(b)
+        if b == b0 and kind != "assign":
+            # defined by the terminator of b0: live from the successors on
+            for s in fn.succs(b):
+                if (s, False) not in seen:
+                    work.append((s, 0))
+            continue
+        for i in range(start or 0, len(stmts)):
+            if _stmt_consumes(stmts[i], l):
+                consumed = True
+                break
+        if consumed:
+            continue
+        t = fn.term(b)
+        if t["k"] in ("call", "tailcall") and any(_uses_move(a, l) for a in t["args"]):
+            continue
+        if t["k"] == "drop" and t["place"] == {"l": l}:
+            out.append(b)
+            continue
+        if t["k"] == "yield" and _uses_move(t.get("value"), l):
+            continue
+        for s in fn.succs(b):
+            if (s, False) not in seen:
+                work.append((s, 0))
+    return out
